@@ -23,4 +23,4 @@ ASSUMPTIONS = [cc.MODEL_NOTE, "redeemer data equality in the model is PData's st
 
 
 def check(tier, seed, replay):
-    return cc.run(PROP, tier, seed, replay, TARGETS, THEOREMS, cc.GEN_RULE, ASSUMPTIONS)
+    return cc.run(PROP, tier, seed, replay, TARGETS, THEOREMS, cc.GEN_RULE + "; C08 also from the source: 14 expressions (unit, numbers, a parameter, arithmetic, a policy name, records in both field orders, variants, booleans, bytes, lists, text) each written as the redeemer of an input, a mint and a withdrawal of one program, resolved and compiled on both networks - the three redeemers must carry the same data", ASSUMPTIONS)
